@@ -8,6 +8,15 @@ ALL = ['C%02d' % i for i in range(1, 21)]
 
 # id -> (technique, level text, level note, design ref)
 CHECKS = {
+    'C14': (
+        'metamorphic soundness testing of accepted restrictions with exact language inclusion as counter-example finder',
+        'Hypothesis base content models x systematic derivation candidates (all single-node occurrence changes, drops, additions, '
+        'branch picks, renames, wildcard<->element) directly and through xs:redefine, Hypothesis facet pairs over boundary pools, '
+        'and Hypothesis attribute-use / wildcard pairs over all subsets of a name pool; whenever the library accepts the schema, no '
+        'instance may be valid for the derived and invalid for the base type: counter-example words come from exact inclusion on '
+        'the product automaton and must be confirmed by the library\'s own two verdicts. Soundness only (completeness is counted).',
+        'trusted: vf/oracles/cm.py inclusion; library verdicts on both types confirm each counter-example (no C01 defect is misfiled)',
+        'DESIGN.md section 3 C14'),
     'C19': (
         'exhaustive single-fault injection on Hypothesis-generated documents with an independent path evaluator',
         'Every applicable typed fault (bad value / attribute, missing / extra attribute, extra / missing / misplaced child, duplicate '
